@@ -73,6 +73,9 @@ def _atoms_for(sel) -> list:
         Atom('not ({0} == "1")', (sel,)),
         Atom('not {0} == "1"', (sel,), cmp=True, misparse='(not {0}) == "1"'),
         Atom('len(str({0})) == 1', (sel,), cmp=True),
+        Atom('float({0}) > 1.0', (sel,), cmp=True),
+        Atom('int({0}) * 0.5 < 0.5', (sel,), cmp=True),
+        Atom('1 < int({0})', (sel,), cmp=True),
     ]
 
 
@@ -88,6 +91,14 @@ def formulas(which: str, tier: str) -> list:
         out.append(Atom('{0} == {1}', (x, y), cmp=True))
         out.append(Atom('str({0}) + str({1}) != "1a"', (x, y), cmp=True))
         out.append(Atom('int({0}) <= int({1})', (x, y), cmp=True))
+        # every comparison operator over int and over float operands (equal values included: the distance-based
+        # fitness of a failed strict comparison must not read as success)
+        for op in ("<", ">", "<=", ">=", "==", "!="):
+            out.append(Atom('float({0}) ' + op + ' float({1})', (x, y), cmp=True))
+            if op != "<=":
+                out.append(Atom('int({0}) ' + op + ' int({1})', (x, y), cmp=True))
+        out.append(Atom('int({0}) / int({1}) > 1', (x, y), cmp=True))
+        out.append(Atom('int({0}) * 0.5 < int({1}) * 0.5', (x, y), cmp=True))
     # connectives over a core set of atoms
     core = [per_sel[id(sels[0])][i] for i in (0, 2, 3, 4)] + [per_sel[id(sels[1])][i] for i in (1, 3)] + [per_sel[id(sels[7])][0], per_sel[id(sels[2])][7]]
     if which == "G1":
